@@ -452,14 +452,50 @@ def classify_roots(prov):
 
 
 def guarded_globals(mod, f):
-    """Globals whose guard variable is acquired in f (thread-safe initialisation of a function-local / inline static)."""
-    out = set()
+    """Globals whose guard variable is acquired in f (thread-safe initialisation of a function-local / inline static), each with
+    its initialisation region: the blocks on a path from the __cxa_guard_acquire call to the matching __cxa_guard_release /
+    __cxa_guard_abort.  Only writes inside that region are the one-time initialisation; a write to the same global anywhere
+    else in f is an ordinary write to shared mutable state."""
+    acq, rel = {}, {}
     for lab in f.order:
         for ins in f.blocks[lab]:
-            if ins.op in ("call", "invoke") and "__cxa_guard_acquire" in ins.text:
+            if ins.op in ("call", "invoke") and "__cxa_guard_" in ins.text:
                 m = re.search(r"@_ZGV([\w$.]+)", ins.text)
-                if m:
-                    out.add("@_Z" + m.group(1))
+                if not m:
+                    continue
+                g = "@_Z" + m.group(1)
+                if "__cxa_guard_acquire" in ins.text:
+                    acq.setdefault(g, set()).add(lab)
+                elif "__cxa_guard_release" in ins.text or "__cxa_guard_abort" in ins.text:
+                    rel.setdefault(g, set()).add(lab)
+    succ = {l: list(f.succ.get(l, [])) for l in f.order}
+    for l in f.order:
+        # an invoke is printed on two lines; its continuation line `to label %n unwind label %u` is the block's last instruction
+        if f.blocks[l] and f.blocks[l][-1].op == "to":
+            for m in re.finditer(r"label (" + ir.NAME + r")", f.blocks[l][-1].text):
+                if m.group(1) not in succ[l]:
+                    succ[l].append(m.group(1))
+    pred = {l: [] for l in f.order}
+    for a, ss in succ.items():
+        for b in ss:
+            pred.setdefault(b, []).append(a)
+
+    def closure(start, edges):
+        seen, todo = set(start), list(start)
+        while todo:
+            x = todo.pop()
+            for y in edges.get(x, []):
+                if y not in seen:
+                    seen.add(y)
+                    todo.append(y)
+        return seen
+
+    out = {}
+    for g, labs in acq.items():
+        if g not in rel:
+            out[g] = set(f.order)      # release not visible in this function (initialisation in a callee): keep the whole function
+        else:
+            out[g] = closure(labs, succ) & closure(rel[g], pred)
     return out
 
 
@@ -477,13 +513,16 @@ def summarize_param_writes(mod, cache, fname, vfuncs=None):
         ps, gs, un = classify_roots(w["prov"])
         res["params"] |= ps
         for g in gs:
-            if g in guarded:
+            if g in guarded and w["instr"].block in guarded[g]:
                 continue
             res["globals"].append((g, w["instr"].text[:120], fname))
         for u in un:
             res["unres"].append("%s: write with unresolved destination %s: %s" % (fname, u, w["instr"].text[:100]))
 
-    def apply_callee(sub, args, how):
+    def apply_callee(sub, args, how, blk=None):
+        def in_init(g):
+            return g in guarded and (blk is None or blk in guarded[g])
+
         for pi in sub["params"]:
             if pi < len(args):
                 a = args[pi]
@@ -491,11 +530,11 @@ def summarize_param_writes(mod, cache, fname, vfuncs=None):
                     ps, gs, un = classify_roots(ff.prov(a))
                     res["params"] |= ps
                     for g in gs:
-                        if g not in guarded:
+                        if not in_init(g):
                             res["globals"].append((g, how, fname))
                     for u in un:
                         res["unres"].append("%s: %s writes through argument %d of unresolved provenance %s" % (fname, how, pi, u))
-        res["globals"] += [g for g in sub["globals"] if g[0] not in guarded]
+        res["globals"] += [g for g in sub["globals"] if not in_init(g[0])]
         res["unres"] += sub["unres"]
         res["indirect"] += sub["indirect"]
 
@@ -510,14 +549,14 @@ def summarize_param_writes(mod, cache, fname, vfuncs=None):
                     continue   # destructors are not reachable from const operations on shared objects
                 if _sig_of_def(mod.funcs[vf]) != csig:
                     continue
-                apply_callee(summarize_param_writes(mod, cache, vf, vfuncs), args, "virtual target %s" % vf)
+                apply_callee(summarize_param_writes(mod, cache, vf, vfuncs), args, "virtual target %s" % vf, ins.block)
             continue
         if cal.startswith("@llvm.") or cal in ir.PURE_FUNCS or cal in ir.ALLOC_FUNCS or cal in ir.FREE_FUNCS \
                 or cal in ir.NORETURN_FUNCS or cal in ir.BENIGN_FUNCS or cal in ("@memcpy", "@memset", "@memmove") \
                 or cal.startswith(ir.IO_PREFIXES):
             continue
         if cal in mod.funcs:
-            apply_callee(summarize_param_writes(mod, cache, cal, vfuncs), args, "callee %s" % cal)
+            apply_callee(summarize_param_writes(mod, cache, cal, vfuncs), args, "callee %s" % cal, ins.block)
         else:
             res["unres"].append("%s: call to external function %s with unknown effects" % (fname, cal))
     cache[fname] = res
@@ -535,6 +574,7 @@ def vtable_functions(mod):
 
 
 def check_e2(rep, tier):
+    ir.KEEP_CONST_GEP = True   # writes through constant expressions into globals (function-local statics) resolve to the global
     ws = e2_witnesses(tier)
     rep.rule("E2", "operation-family witnesses: no write reaches a shared const input or a mutable global", minimum=40)
     W0 = irw.IRW("c18", E2_PRELUDE, chunk=3, exceptions=True)
